@@ -207,13 +207,27 @@ def _pure_elem(e):
     return _pure_arg(e)
 
 
+def _row_ok(e, width):
+    return isinstance(e, (ast.Tuple, ast.List)) and len(e.elts) == width and all(_pure_elem(x) for x in e.elts)
+
+
 class _Unroller(ast.NodeTransformer):
-    """loops and comprehensions over a tuple display of names (a *args parameter that was substituted): unrolled"""
+    """loops and comprehensions over a tuple display of names (a *args parameter that was substituted): unrolled; likewise a loop
+    `for a, b, c in [(A1, B1, C1), (A2, B2, C2)]` over a display of rows of names / constants / fields"""
 
     def visit_For(self, node):
         self.generic_visit(node)
         it = node.iter
-        if not (isinstance(it, (ast.Tuple, ast.List)) and len(it.elts) <= 8 and all(_pure_elem(e) for e in it.elts) and isinstance(node.target, ast.Name)):
+        if not (isinstance(it, (ast.Tuple, ast.List)) and len(it.elts) <= 16):
+            return node
+        if isinstance(node.target, ast.Name):
+            if not (len(it.elts) <= 8 and all(_pure_elem(e) for e in it.elts)):
+                return node
+            tnames = [node.target.id]
+        elif isinstance(node.target, (ast.Tuple, ast.List)) and all(isinstance(x, ast.Name) for x in node.target.elts) and it.elts \
+                and all(_row_ok(e, len(node.target.elts)) for e in it.elts):
+            tnames = [x.id for x in node.target.elts]
+        else:
             return node
         if node.orelse:
             return node
@@ -221,11 +235,11 @@ class _Unroller(ast.NodeTransformer):
             for n in ast.walk(b):
                 if isinstance(n, (ast.Break, ast.Continue)):
                     return node
-                if isinstance(n, ast.Name) and n.id == node.target.id and isinstance(n.ctx, (ast.Store, ast.Del)):
+                if isinstance(n, ast.Name) and n.id in tnames and isinstance(n.ctx, (ast.Store, ast.Del)):
                     return node
         out = []
         for e in it.elts:
-            sub = _Subst({}, {node.target.id: e})
+            sub = _Subst({}, {node.target.id: e} if isinstance(node.target, ast.Name) else dict(zip(tnames, e.elts)))
             for b in node.body:
                 out.append(sub.visit(clone(b)))
         return out or [ast.copy_location(ast.Pass(), node)]
@@ -273,7 +287,67 @@ def _fold_appends(stmts):
     return out
 
 
+def _literal_iterables(stmts):
+    """`rows = [<display of rows>]` assigned once and read only as the iterable of for-loops: the display is moved into the loops (then
+    unrolled).  The rows are names / constants / field chains; no field named in them and none of the names is stored anywhere in the
+    statements, so reading them at loop time instead of at the assignment yields the same objects."""
+    mod = ast.Module(body=stmts, type_ignores=[])
+    stores, loads = {}, {}
+    stored_attrs = set()
+    for n in ast.walk(mod):
+        if isinstance(n, ast.Name):
+            (stores if isinstance(n.ctx, (ast.Store, ast.Del)) else loads).setdefault(n.id, []).append(n)
+        elif isinstance(n, ast.Attribute) and isinstance(n.ctx, (ast.Store, ast.Del)):
+            stored_attrs.add(n.attr)
+        elif isinstance(n, ast.Call) and isinstance(n.func, ast.Name) and n.func.id in ('setattr', 'delattr'):
+            stored_attrs.add('*')
+    iters = {id(n.iter): n for n in ast.walk(mod) if isinstance(n, ast.For)}
+
+    def cells(d):
+        for e in d.elts:
+            if isinstance(e, (ast.Tuple, ast.List)):
+                for x in e.elts:
+                    yield x
+            else:
+                yield e
+
+    def stable(x):
+        while isinstance(x, ast.Attribute):
+            if x.attr in stored_attrs or '*' in stored_attrs:
+                return False
+            x = x.value
+        return isinstance(x, ast.Constant) or (isinstance(x, ast.Name) and len(stores.get(x.id, ())) <= 1)
+    cands = {}
+
+    def scan(block):
+        for s in block:
+            if isinstance(s, ast.Assign) and len(s.targets) == 1 and isinstance(s.targets[0], ast.Name) and isinstance(s.value, (ast.List, ast.Tuple)) and s.value.elts:
+                v = s.targets[0].id
+                if len(stores.get(v, ())) == 1 and loads.get(v) and all(id(l) in iters for l in loads[v]) and len(s.value.elts) <= 16 \
+                        and all(_pure_elem(x) and stable(x) for x in cells(s.value)):
+                    cands[v] = s
+            for fld in ('body', 'orelse', 'finalbody'):
+                b = getattr(s, fld, None)
+                if isinstance(b, list) and b and isinstance(b[0], ast.stmt) and not isinstance(s, (ast.FunctionDef, ast.ClassDef)):
+                    scan(b)
+            if isinstance(s, ast.Try):
+                for h in s.handlers:
+                    scan(h.body)
+    scan(mod.body)
+    if not cands:
+        return stmts
+    for v, s in cands.items():
+        for l in loads[v]:
+            iters[id(l)].iter = clone(s.value)
+
+    class Drop(ast.NodeTransformer):
+        def visit_Assign(self, node):
+            return ast.copy_location(ast.Pass(), node) if any(node is s for s in cands.values()) else node
+    return Drop().visit(mod).body
+
+
 def _simplify(stmts):
+    stmts = _literal_iterables(stmts)
     mod = ast.Module(body=stmts, type_ignores=[])
     mod = _Unroller().visit(mod)
     return _fold_appends(mod.body)
@@ -442,6 +516,8 @@ class _Flattener:
                     rename[p] = a_.id
                 else:
                     exprs[p] = a_
+            elif p not in stored and self._display_for_loops(a_, p, body):
+                exprs[p] = a_                      # a display of rows that the callee only walks: moved into its loops (then unrolled)
             else:
                 nm = p if (p not in caller_names and p not in arg_names and p not in unified.values()) else '%s__%s' % (p, callee.name.strip('_'))
                 rename[p] = nm
@@ -456,6 +532,32 @@ class _Flattener:
         out = pre + body
         self.expanded.append(callee.name)
         return self.block(out, caller_names | set(rename.values()), stack + (callee.name,), depth + 1)
+
+    @staticmethod
+    def _display_for_loops(a_, p, body):
+        """a_ is a display (of rows) of names / constants / field chains, the parameter p is read only as the iterable of for-loops in the
+        callee, and the callee stores no field and no name that occurs in the display"""
+        if not (isinstance(a_, (ast.List, ast.Tuple)) and a_.elts and len(a_.elts) <= 16):
+            return False
+        cells = []
+        for e in a_.elts:
+            cells.extend(e.elts if isinstance(e, (ast.Tuple, ast.List)) else [e])
+        if not all(_pure_elem(x) for x in cells):
+            return False
+        mod = ast.Module(body=body, type_ignores=[])
+        iters = {id(n.iter) for n in ast.walk(mod) if isinstance(n, ast.For)}
+        reads = [n for n in ast.walk(mod) if isinstance(n, ast.Name) and n.id == p]
+        if not reads or not all(id(n) in iters for n in reads):
+            return False
+        stored_attrs = {n.attr for n in ast.walk(mod) if isinstance(n, ast.Attribute) and isinstance(n.ctx, (ast.Store, ast.Del))}
+        if any(isinstance(n, ast.Call) and isinstance(n.func, ast.Name) and n.func.id in ('setattr', 'delattr') for n in ast.walk(mod)):
+            return False
+        for x in cells:
+            while isinstance(x, ast.Attribute):
+                if x.attr in stored_attrs:
+                    return False
+                x = x.value
+        return True
 
     @staticmethod
     def _assign_back(target, value, at):
@@ -659,8 +761,11 @@ def flatten(scope, fn, keep=(), module_level=False):
     if not fl.expanded:
         return fn
     # what became constant through the expansion (a prefix parameter bound to a literal ...) is folded like at parse time
-    from .tables import _ConstStrings, _Getattr
-    new = _Getattr().visit(_ConstStrings().visit(new))
+    from .tables import _ConstStrings, _Getattr, _Simplify
+    new = _Simplify().visit(_Getattr().visit(_ConstStrings().visit(new)))
+    from .source import _GuardedLocals, _Canon
+    _GuardedLocals().function(new)
+    new = _Canon().visit(new)
     ast.fix_missing_locations(new)
     for n in ast.walk(new):
         for c in ast.iter_child_nodes(n):
